@@ -6,7 +6,7 @@ which elements each operand presents, how a two-finger merge (possibly of lazily
 leader-follower intersection consumes them, which coordinates the populate offers, which of them already
 existed in the destination and at which raw index, and which were kept.  Library log: the CSV files written under the collection prefix / the consumed in-memory traces.
 The checker validates header, stamp ordering, and matches rows to ground-truth events one-to-one in
-order; every kernel is run with flush thresholds 2, 3, 7, 1000, with consumable traces (consumed at the end,
+order; every kernel is run with flush thresholds 2, 3, 7, 1000 (and with the threshold changed while the collection runs), with consumable traces (consumed at the end,
 piecewise, or after a refused endCollect()) and with the on-disk and in-memory forms mixed per trace - all row
 sequences must be identical - and with two complementary subsets of the traces requested, each judged
 against the ground truth of its own run.
@@ -39,7 +39,11 @@ SPEC = {
              "loop of a nest of depth 2-3 (a new projected fiber per iteration of the enclosing loops).  Configurations of the "
              "collection per kernel / nest: flush thresholds 2, 3, 7, 1000; every trace on disk, in memory, or both (form drawn per "
              "trace); in-memory forms consumed once after the nest, piecewise at every iteration of the outermost loop, or only "
-             "after endCollect() has refused to drop them (the collection is then ended again); all traces requested, or a random "
+             "after endCollect() has refused to drop them (the collection is then ended again); the flush threshold fixed, or changed "
+             "with setNumCachedUses() while the collection runs (to values drawn from 2..1000 at the iterations of the outermost loop "
+             "and once more after the nest - raised or lowered, also below the number of rows a trace holds unwritten at that moment); "
+             "every batch consumeTrace() delivered (also the empty ones) is copied at once and kept, and read again after the "
+             "collection ended; all traces requested, or a random "
              "subset of the (rank, type) pairs and its complement, each judged against the ground truth of its own run.  Non-trivial "
              "= at least 2 trace files with at least 2 data rows each; distinct = distinct case."),
     "shards": {"quick": 16, "thorough": 16},
@@ -50,7 +54,10 @@ SPEC = {
                              "dense_ref_outer_nests": 25, "prepared_ahead_nests": 20, "prepared_ahead_leader_follower_nests": 6,
                              "trace_subsets_judged": 200, "write_without_read_subsets": 5, "inserting_moves_judged": 60,
                              "piecewise_consumed_collections": 100, "late_drained_collections": 100,
-                             "inner_loop_projection_nests": 30, "inner_loop_project_rows": 200}},
+                             "inner_loop_projection_nests": 30, "inner_loop_project_rows": 200,
+                             "threshold_changed_collections": 300, "threshold_lowered_collections": 200,
+                             "threshold_lowered_below_buffered_collections": 60,
+                             "delivered_batches_reread": 20000, "empty_batches_followed_by_accesses": 2000}},
     "assumptions": [
         "label rule (which intersect_i / populate_i file belongs to which operand), derived from the library's behaviour on the unchanged tree: labels are handed out per loop rank in the order the operators start - a populate names its destination and source first, the outermost intersection names its operands next, an intersection nested inside one of its operands names its own when it is first pulled (left operand before right); a leader-follower intersection names leader then followers; integer coordinates",
         "an access in a two-finger intersection = an element of an operand that was compared and consumed, or the one left at the head of the unexhausted operand when the merge ends; a lazy operand is pulled on demand, so elements it never had to produce are not accesses",
@@ -59,6 +66,8 @@ SPEC = {
         "destination-side traces of an inserting populate (first source coordinate below the destination's maximum, compressed destination) are only required to be stamp-ordered and complete; complete = the write trace holds exactly one row per kept write plus one per moved element, the read trace at least one row per read of an element that was already there plus one per moved element (the reads of the search for the insertion place are not modelled); moved elements = the non-empty elements from the first inserted one to the end of the fiber as it is when the populate ends",
         "which traces are requested does not change which accesses a requested trace must hold; it may change the stamps (only their order is judged in a subset configuration).",
         "endCollect() refuses (AssertionError) to end a collection whose in-memory traces hold unconsumed rows; after the rows have been consumed a second endCollect() ends it, and the refused call must not have changed what the traces hold",
+        "Metrics.setNumCachedUses() may be called while a collection runs; it only changes how many rows are buffered before a flush, so the content of every trace is that of the collection run with a fixed threshold",
+        "a batch returned by consumeTrace() belongs to the consumer: the library neither appends to it nor delivers its rows again, so read after the collection it holds exactly the rows it held when it was delivered",
         "a projected fiber consumed directly by the innermost loop (no populate / intersection on top of it, default tick): its source rank is matched to the loop rank, so the project_i header names the loop ranks; rows carry the source coordinate",
         "a loop level driven directly by the dense iterator of a single uncompressed operand emits no iter rows; its iter trace is not judged",
         "position of an element of a lazily produced fiber (a & b, z << a) is its ordinal in that lazy sequence; position in an uncompressed-format fiber is the offset in its active range",
@@ -498,6 +507,7 @@ def _prep_nest2(case):
 
 
 FORMS = ["file", "mem", "file-then-mem", "mem-then-file"]
+THRESHOLDS = [2, 3, 4, 7, 64, 1000]
 
 
 def _cfg_seed(case):
@@ -519,13 +529,16 @@ def _subset(ranks, seed):
     return out
 
 
-def _run(case, prefix, ncu, consumable, want=None, drain="end"):
+def _run(case, prefix, ncu, consumable, want=None, drain="end", resched=None):
     """Run the case under a collection.  `consumable`: False (every trace on disk), True (in memory), "file-then-mem" /
     "mem-then-file" (both forms, requested in that order) or ("mixed", seed) (form drawn per trace).  `want`: the
     (rank, type) pairs to request (None = all).  `drain`: when the in-memory forms are consumed - "end" (once, after
     the loop nest), "stream" (at every iteration of the outermost loop and after the nest) or "late" (only after
-    endCollect() has refused to drop the unconsumed rows; the collection is then ended again)."""
+    endCollect() has refused to drop the unconsumed rows; the collection is then ended again).  `resched`: (steps, final) -
+    the flush threshold is changed while the collection runs: to steps[i % len(steps)] at the i-th iteration of the
+    outermost loop and to `final` (unless None) after the loop nest, before anything is consumed / the collection ends."""
     gt, ranks, thunk = (_prep_nest2 if case["kind"] == "nest2" else _prep_kernel)(case)
+    gt.lowered = gt.overfull = 0
     keys = [(r, tt) for r in ranks for tt in ALL_TYPES if want is None or (r, tt) in want]
     if isinstance(consumable, tuple):
         rr = random.Random(consumable[1])
@@ -540,14 +553,39 @@ def _run(case, prefix, ncu, consumable, want=None, drain="end"):
     memkeys = [k for k in keys if form[k] != "file"]
     mem = {k: [] for k in memkeys}
 
+    kept = {k: [] for k in memkeys}
+
     def consume():
         for r, tt in memkeys:
-            mem[(r, tt)].extend([str(x) for x in row] for row in Metrics.consumeTrace(r, tt))
-    if drain == "stream":
-        gt.tap = consume
+            batch = Metrics.consumeTrace(r, tt)
+            # the rows are copied at once AND the delivered batch is kept, to be read again after the collection
+            mem[(r, tt)].extend([str(x) for x in row] for row in batch)
+            kept[(r, tt)].append(batch)
+    ntap = [0]
+
+    def rethreshold(new):
+        # (coverage counters only: was the threshold lowered, and below what some on-disk trace holds unwritten)
+        try:
+            if new < Metrics.num_cached_uses:
+                gt.lowered += 1
+                gt.overfull += any(ft is not None and len(ft) > new for d in Metrics.traces.values() for ft, _, _ in d.values())
+        except Exception:       # noqa
+            pass
+        Metrics.setNumCachedUses(new)
+
+    def tap():
+        if resched is not None:
+            rethreshold(resched[0][ntap[0] % len(resched[0])])
+            ntap[0] += 1
+        if drain == "stream":
+            consume()
+    if drain == "stream" or resched is not None:
+        gt.tap = tap
     thunk()
     gt.tap = None
     gt.refused = None
+    if resched is not None and resched[1] is not None:
+        rethreshold(resched[1])
     if drain != "late":
         consume()
         Metrics.endCollect()
@@ -560,6 +598,10 @@ def _run(case, prefix, ncu, consumable, want=None, drain="end"):
             gt.refused = True
             consume()
             Metrics.endCollect()
+    # a batch once delivered is the consumer's: read again after the collection it holds what it held when delivered
+    gt.batches = sum(len(v) for v in kept.values())
+    gt.empty_batches = sum(1 for v in kept.values() for b in v[:-1] if len(b) == 0)
+    gt.batch_changed = [k for k in memkeys if [[str(x) for x in row] for b in kept[k] for row in b] != mem[k]]
     files = {}
     for k in keys:
         r, tt = k
@@ -785,6 +827,7 @@ def _variants(case, prefix, files, ranks, desc, mon):
                           f"traced kernel raised {type(e).__name__}: {e} with num_cached_uses={ncu} consumable={cons} drain={drain}; {desc}")
             continue
         mon.count("flush_variants_compared")
+        _batches(g2, mon, f"num_cached_uses={ncu} consumable={cons} consumed={drain}; {desc}")
         if drain != "end":
             mon.count("piecewise_consumed_collections" if drain == "stream" else "late_drained_collections", int(drain == "stream" or bool(g2.refused)))
         for key, rows in files.items():
@@ -794,6 +837,35 @@ def _variants(case, prefix, files, ranks, desc, mon):
                 k = ("flush:threshold-changes-content" if not cons else "flush:consumable-differs" if drain == "end" else
                      "consume-piecewise:changes-content" if drain == "stream" else "consume-after-refused-end:changes-content")
                 mon.violation(k, f"trace {key} differs with num_cached_uses={ncu} consumable={cons} consumed={drain}: {len(b)} rows vs {len(a)}; {desc}")
+                break
+        else:
+            mon.count("oracle_evals")
+    # the flush threshold may be changed while the collection runs (at any iteration of the outermost loop and after
+    # the loop nest): raised or lowered, also below the number of rows a trace currently holds unwritten
+    for cons, drain in ((False, "end"), (("mixed", seed + 2), rr.choice(["end", "stream", "late"]))):
+        first = rr.choice(THRESHOLDS)
+        steps = [rr.choice(THRESHOLDS) for _ in range(rr.randint(1, 4))]
+        final = rr.choice([None] + THRESHOLDS[:4])
+        try:
+            g4, f4, _ = _run(case, prefix, first, cons, drain=drain, resched=(steps, final))
+        except BaseException as e:      # noqa
+            if isinstance(e, KeyboardInterrupt):
+                raise
+            mon.violation(f"flush:threshold-changed-during-collection:raised:{type(e).__name__}",
+                          f"traced kernel raised {type(e).__name__}: {e} with num_cached_uses={first} changed to {steps} (cyclically, at the "
+                          f"iterations of the outermost loop) and to {final} after the nest, consumable={cons} drain={drain}; {desc}")
+            continue
+        mon.count("threshold_changed_collections")
+        _batches(g4, mon, f"num_cached_uses={first} changed to {steps} / {final} consumable={cons} consumed={drain}; {desc}")
+        mon.count("threshold_lowered_collections", int(g4.lowered > 0))
+        mon.count("threshold_lowered_below_buffered_collections", int(g4.overfull > 0))
+        for key, rows in files.items():
+            a = rows or []
+            b = f4.get(key) or []
+            if a != b:
+                mon.violation("flush:threshold-changed-during-collection:changes-content",
+                              f"trace {key} differs when num_cached_uses={first} is changed to {steps} (cyclically, at the iterations of the "
+                              f"outermost loop) and to {final} after the nest (consumable={cons} consumed={drain}): {len(b)} rows vs {len(a)}; {desc}")
                 break
         else:
             mon.count("oracle_evals")
@@ -814,6 +886,15 @@ def _variants(case, prefix, files, ranks, desc, mon):
         mon.count("write_without_read_subsets", sum(1 for R in ranks if (R, "populate_write_0") in want and (R, "populate_read_0") not in want
                                                     and any(v["inserting"] for v in g3.exp.get((R, "populate_write_0"), []))))
         _judge(g3, f3, ranks, f"{desc}; traces requested: {sorted(want)}", mon, want)
+
+
+def _batches(g, mon, desc):
+    """The batches consumeTrace() delivered during one collection, read again after the collection ended."""
+    mon.count("delivered_batches_reread", g.batches)
+    mon.count("empty_batches_followed_by_accesses", g.empty_batches)
+    mon.check(not g.batch_changed, "consume:delivered-batch-changes-afterwards",
+              f"traces {g.batch_changed}: the batches consumeTrace() delivered, read again after the collection ended, no longer hold "
+              f"the rows they held when delivered; {desc}")
 
 
 def _tkind(tt):
